@@ -1,4 +1,4 @@
-package sim
+package scen
 
 import (
 	"bytes"
@@ -116,10 +116,10 @@ type HostPlan struct {
 }
 
 type Trigger struct {
-	Point  string `json:"point,omitempty"`  // event point
-	Actor  string `json:"actor,omitempty"`  // optional actor prefix
-	Nth    int    `json:"nth,omitempty"`    // 1-based occurrence
-	Idle   bool   `json:"idle,omitempty"`   // when the pipeline has been idle for IdleSec
+	Point  string `json:"point,omitempty"` // event point
+	Actor  string `json:"actor,omitempty"` // optional actor prefix
+	Nth    int    `json:"nth,omitempty"`   // 1-based occurrence
+	Idle   bool   `json:"idle,omitempty"`  // when the pipeline has been idle for IdleSec
 	AtStep int    `json:"at_step,omitempty"`
 	After  string `json:"after,omitempty"` // name of another action that must have completed
 }
@@ -147,15 +147,15 @@ type HQPlan struct {
 func (b Body) Bytes() []byte {
 	switch b.Kind {
 	case "pad":
-		return padText(b.Size, b.Seed)
+		return PadText(b.Size, b.Seed)
 	case "bin":
-		return binBytes(b.Size, b.Seed)
+		return BinBytes(b.Size, b.Seed)
 	default:
 		return []byte(b.Text)
 	}
 }
 
-func padText(n, seed int) []byte {
+func PadText(n, seed int) []byte {
 	r := rand.New(rand.NewPCG(uint64(seed)+1, 77))
 	words := []string{"zeno", "crawl", "archive", "lorem", "ipsum", "warc", "seed", "asset", "page", "text"}
 	var buf bytes.Buffer
@@ -170,7 +170,7 @@ func padText(n, seed int) []byte {
 	return buf.Bytes()[:n]
 }
 
-func binBytes(n, seed int) []byte {
+func BinBytes(n, seed int) []byte {
 	r := rand.New(rand.NewPCG(uint64(seed)+1, 99))
 	out := make([]byte, n)
 	hdr := []byte{0x89, 'P', 'N', 'G', 0x0d, 0x0a, 0x1a, 0x0a}
@@ -184,7 +184,7 @@ func binBytes(n, seed int) []byte {
 	return out
 }
 
-func gzipBytes(b []byte) []byte {
+func GzipBytes(b []byte) []byte {
 	var buf bytes.Buffer
 	zw, _ := gzip.NewWriterLevel(&buf, gzip.BestSpeed)
 	zw.Write(b)
